@@ -631,6 +631,58 @@ func (g *Gen) genericSingleOp() *Op {
 	}
 }
 
+// genericDeadOp draws a generic call on a removed or recycled entity.
+func (g *Gen) genericDeadOp() *Op {
+	s, m, R := g.S, g.S.M, g.R
+	d, ok := g.dead()
+	if !ok {
+		return nil
+	}
+	keys := []int{}
+	for _, id := range g.used() {
+		if _, ok := gSingles[m.Types[id].Key]; ok {
+			keys = append(keys, id)
+		}
+	}
+	if len(keys) == 0 {
+		return nil
+	}
+	id := Pick(R, keys)
+	if len(s.gfs) > 0 && R.Chance(0.25) {
+		// registering a registered FilterN again / unregistering one that is not registered
+		slots := []int{}
+		for sl, st := range s.gfs {
+			if !st.registered || st.owner == s {
+				slots = append(slots, sl)
+			}
+		}
+		if len(slots) > 0 {
+			sortInts(slots)
+			sl := Pick(R, slots)
+			if s.gfs[sl].registered {
+				return &Op{K: "GFReg", GK: "GF.Reg", Slot: ip(sl), Ill: "dup.generic.Filter.Register"}
+			}
+			return &Op{K: "GFReg", GK: "GF.Reg", Slot: ip(sl), Alt: true, Ill: "missing.generic.Filter.Unregister"}
+		}
+	}
+	switch R.Intn(4) {
+	case 0:
+		return &Op{K: "Set", GK: "Single.Set", E: entP(d), ID: id, Val: g.val(), Key: m.Types[id].Key, Ill: "dead.generic.Map.Set"}
+	case 1:
+		rels := minus(keys, func(x int) bool { return !m.Types[x].Rel })
+		if len(rels) == 0 {
+			return nil
+		}
+		rel := Pick(R, rels)
+		return &Op{K: "RelSet", GK: "Single.SetRelation", E: entP(d), Rel: ip(rel), T: entP(ecs.Entity{}), Key: m.Types[rel].Key, Ill: "dead.generic.Map.SetRelation"}
+	case 2:
+		return &Op{K: "Add", GK: "Ex.Add", E: entP(d), Add: []int{g.anyUsed()}, Trav: R.Intn(6), Ill: "dead.generic.Exchange.Add"}
+	default:
+		_ = s
+		return &Op{K: "Remove", GK: "Ex.Remove", E: entP(d), Rem: []int{g.anyUsed()}, Trav: R.Intn(6), Ill: "dead.generic.Exchange.Remove"}
+	}
+}
+
 func (g *Gen) genericExchangeOp() *Op {
 	R := g.R
 	k := Pick(R, []string{"NewEntity", "BuilderNew", "Add", "Remove", "Exchange", "RelExchange", "BatchExchange", "RelExchangeBatch"})
@@ -752,7 +804,9 @@ func (g *Gen) genericFilterOp() *Op {
 		}
 		return &Op{K: "GFMod", GK: "GF.Mod", Slot: ip(sl), Key: "Exclusive"}
 	case 5: // WithRelation
-		if st.registered || st.relComp >= 0 {
+		// (also on a filter that has a relation already: a fixed target can be replaced by another one, and a call
+		// without target keeps the one that was fixed before)
+		if st.registered || (st.relComp >= 0 && R.Chance(0.4)) {
 			return nil
 		}
 		rels := minus(st.include, func(x int) bool { return !s.M.Types[x].Rel || contains(st.optional, x) })
@@ -760,8 +814,11 @@ func (g *Gen) genericFilterOp() *Op {
 			return nil
 		}
 		op := &Op{K: "GFMod", GK: "GF.Mod", Slot: ip(sl), Key: "WithRelation", Rel: ip(rels[0])}
-		if R.Chance(0.5) {
+		if R.Chance(0.5) || st.relComp >= 0 && R.Chance(0.6) {
 			op.T = g.relFilter(rels[0]).T
+		}
+		if st.relComp >= 0 {
+			s.Cov.N["generic_filter_retargeted"]++
 		}
 		return op
 	case 6: // register / unregister
@@ -847,6 +904,29 @@ func caseC18(c *Ctx) {
 	g := NewGen(c.R, gs, p)
 	for i := 0; i < p.Steps && !gs.Failed(); i++ {
 		op := g.Next()
+		if i > 20 && c.R.Chance(0.04) {
+			// a call that the ID-based API rejects must be rejected by its generic form as well, without effect:
+			// a removed or recycled entity handed to Map.Set / Map.SetRelation / Exchange.Add / Exchange.Remove
+			if fop := g.genericDeadOp(); fop != nil {
+				row := &FaultRow{Name: fop.Ill, Atomic: true}
+				ko := *fop
+				ko.GK = ""
+				if !InjectFault(gs, row, fop) {
+					break
+				}
+				if fop.K == "GFReg" {
+					// (no ID-based twin call: the counterpart is Cache.Register of a CachedFilter, a row of C10's table)
+					gs.Cov.N["generic_rejected_calls"]++
+					continue
+				}
+				if !InjectFault(ks, row, &ko) {
+					gs.fail("generic.twin.failed", "the ID-based equivalent of a rejected %s failed: %s", fop.GK, ks.Viol[0].Msg)
+					break
+				}
+				gs.Cov.N["generic_rejected_calls"]++
+				continue
+			}
+		}
 		outG := gs.Do(op)
 		if gs.Failed() {
 			break
